@@ -348,4 +348,158 @@ theorem inv_updateSMO_box {s : RS} (h : Inv s) (he : s.eqc = false) (hE : EdgeIn
     exact inv_step_two h hi hj hij hv'.1 hv'.2 hf.1 hf.2 (fun a ha => by
       simp only [ha, if_true, State.q]; rw [h.sym (s.perm i) (s.perm a), h.sym (s.perm j) (s.perm a)]; ring)
 
+
+/-! ### `SvmProblem::updateSMO` (equality-constrained) -/
+
+/-- guarded curvature `max(K_ii + K_jj − 2K_ij, 1e-12)` of the pair -/
+def svmDen (s : RS) (i j : Nat) : Rat := smax (s.diag i + s.diag j - (2.0 : Rat) * s.q i j) (1.0e-12 : Rat)
+
+/-- `(step, new alpha_i, new alpha_j)` of the clipped step -/
+def svmR (s : RS) (i j : Nat) : Rat × Rat × Rat :=
+  let step := (s.g i - s.g j) / svmDen s i j
+  let Ui := s.boxMax i
+  let Lj := s.boxMin j
+  let ai := s.alpha i
+  let aj := s.alpha j
+  if step ≥ smin (Ui - ai) (aj - Lj) then
+    if Ui - ai > aj - Lj then (aj - Lj, ai + (aj - Lj), Lj)
+    else if Ui - ai < aj - Lj then (Ui - ai, Ui, aj - (Ui - ai))
+    else (Ui - ai, Ui, Lj)
+  else (step, ai + step, aj - step)
+
+theorem svmDen_pos (s : RS) (i j : Nat) : 0 < svmDen s i j := by
+  unfold svmDen smax; rw [litE]; split
+  · norm_num
+  · rename_i h; have : (0:Rat) < 1 / 1000000000000 := by norm_num
+    linarith [not_lt.mp h]
+
+theorem svmDen_ge (s : RS) (i j : Nat) : s.diag i + s.diag j - 2 * s.q i j ≤ svmDen s i j := by
+  unfold svmDen smax; rw [lit2]; split
+  · rename_i h; exact le_of_lt h
+  · exact le_refl _
+
+/-- the clipped step: a non-negative step length, not longer than the (guarded) Newton step, that keeps both
+coefficients in their boxes -/
+theorem svmR_spec {s : RS} (h : Inv s) {i j : Nat} (hi : i < s.n) (hj : j < s.n) (hg : s.g j ≤ s.g i) :
+    0 ≤ (svmR s i j).1 ∧ (svmR s i j).1 ≤ (s.g i - s.g j) / svmDen s i j ∧
+    (svmR s i j).2.1 = s.alpha i + (svmR s i j).1 ∧ (svmR s i j).2.2 = s.alpha j - (svmR s i j).1 ∧
+    (svmR s i j).1 ≤ s.U i - s.alpha i ∧ (svmR s i j).1 ≤ s.alpha j - s.L j := by
+  have hstep : 0 ≤ (s.g i - s.g j) / svmDen s i j := div_nonneg (by linarith) (le_of_lt (svmDen_pos s i j))
+  obtain ⟨hbi1, hbi2⟩ := h.box i hi
+  obtain ⟨hbj1, hbj2⟩ := h.box j hj
+  unfold svmR smin
+  simp only [boxMax_eq h hi, boxMin_eq h hj, ge_iff_le, gt_iff_lt]
+  generalize (s.g i - s.g j) / svmDen s i j = st at hstep ⊢
+  split_ifs <;> dsimp only <;> refine ⟨?_, ?_, ?_, ?_, ?_, ?_⟩ <;> linarith
+
+/-- a strictly violating pair with room to move is moved by a positive amount -/
+theorem svmR_pos {s : RS} (h : Inv s) {i j : Nat} (hi : i < s.n) (hj : j < s.n) (hg : s.g j < s.g i)
+    (hui : s.alpha i < s.U i) (hlj : s.L j < s.alpha j) : 0 < (svmR s i j).1 := by
+  have hstep : 0 < (s.g i - s.g j) / svmDen s i j := div_pos (by linarith) (svmDen_pos s i j)
+  unfold svmR smin
+  simp only [boxMax_eq h hi, boxMin_eq h hj, ge_iff_le, gt_iff_lt]
+  generalize (s.g i - s.g j) / svmDen s i j = st at hstep ⊢
+  split_ifs <;> dsimp only <;> linarith
+
+theorem smoSvmBase_eq (s : RS) (i j : Nat) :
+    s.smoSvmBase i j =
+      if ((svmR s i j).2.1 == s.alpha i && (svmR s i j).2.2 == s.alpha j) = true then
+        stepped s (upd (upd s.alpha i (svmR s i j).2.1) j (svmR s i j).2.2) s.g s.lo s.up
+      else
+        stepped s (upd (upd s.alpha i (svmR s i j).2.1) j (svmR s i j).2.2)
+          (fun a => if a < s.active then s.g a - ((svmR s i j).1 * s.q i a - (svmR s i j).1 * s.q j a) else s.g a)
+          (upd (upd s.lo i (upd (upd s.alpha i (svmR s i j).2.1) j (svmR s i j).2.2 i == s.L i)) j
+            (upd (upd s.alpha i (svmR s i j).2.1) j (svmR s i j).2.2 j == s.L j))
+          (upd (upd s.up i (upd (upd s.alpha i (svmR s i j).2.1) j (svmR s i j).2.2 i == s.U i)) j
+            (upd (upd s.alpha i (svmR s i j).2.1) j (svmR s i j).2.2 j == s.U j)) := by
+  rfl
+
+
+theorem upd_upd_self (f : Nat → Rat) (i : Nat) : upd (upd f i (f i)) i (f i) = f := by
+  funext k; simp only [upd]; split
+  · rename_i h; rw [h]
+  · rfl
+
+/-- for `i = j` the equality-constrained step changes nothing -/
+theorem updateSMO_svm_self {s : RS} (h : Inv s) (he : s.eqc = true) {i : Nat} (hi : i < s.n) :
+    s.updateSMO i i = s := by
+  obtain ⟨h0, h1, h2, h3, _, _⟩ := svmR_spec h hi hi (le_refl _)
+  have hμ : (svmR s i i).1 = 0 := by
+    have : (s.g i - s.g i) / svmDen s i i = 0 := by rw [sub_self, zero_div]
+    rw [this] at h1; linarith
+  have e1 : (svmR s i i).2.1 = s.alpha i := by rw [h2, hμ, add_zero]
+  have e2 : (svmR s i i).2.2 = s.alpha i := by rw [h3, hμ, sub_zero]
+  have hb : s.smoSvmBase i i = s := by
+    rw [smoSvmBase_eq, e1, e2]
+    simp only [beq_self_eq_true, Bool.and_self, if_true]
+    unfold stepped; rw [upd_upd_self]
+  unfold State.updateSMO
+  simp only [he, if_true, hb]
+  unfold State.updateGradientEdge
+  simp
+
+/-- the clipped step as `(alpha_i + μ, alpha_j − μ)`, in the form needed by `inv_step_two` -/
+theorem inv_updateSMO_svm {s : RS} (h : Inv s) (he : s.eqc = true) {i j : Nat} (hi : i < s.active) (hj : j < s.active)
+    (hg : s.g j ≤ s.g i) : Inv (s.updateSMO i j) := by
+  have hin : i < s.n := Nat.lt_of_lt_of_le hi h.act_le
+  have hjn : j < s.n := Nat.lt_of_lt_of_le hj h.act_le
+  by_cases hij : i = j
+  · subst hij; rw [updateSMO_svm_self h he hin]; exact h
+  obtain ⟨h0, _, h2, h3, h4, h5⟩ := svmR_spec h hin hjn hg
+  have hbi := h.box i hin
+  have hbj := h.box j hjn
+  have hvi : s.L i ≤ (svmR s i j).2.1 ∧ (svmR s i j).2.1 ≤ s.U i := by rw [h2]; constructor <;> linarith
+  have hvj : s.L j ≤ (svmR s i j).2.2 ∧ (svmR s i j).2.2 ≤ s.U j := by rw [h3]; constructor <;> linarith
+  unfold State.updateSMO
+  simp only [he, if_true, if_neg hij]
+  rw [smoSvmBase_eq]
+  split
+  · rename_i hsame
+    simp only [Bool.and_eq_true, beq_iff_eq] at hsame
+    refine inv_step_two h hi hj hij hvi hvj ?_ ?_ ?_
+    · intro k hk
+      have : upd (upd s.alpha i (svmR s i j).2.1) j (svmR s i j).2.2 k = s.alpha k := by
+        rw [hsame.1, hsame.2]; simp only [upd]; split
+        · rename_i e; rw [e]
+        · split
+          · rename_i e; rw [e]
+          · rfl
+      rw [this]; exact h.flo k hk
+    · intro k hk
+      have : upd (upd s.alpha i (svmR s i j).2.1) j (svmR s i j).2.2 k = s.alpha k := by
+        rw [hsame.1, hsame.2]; simp only [upd]; split
+        · rename_i e; rw [e]
+        · split
+          · rename_i e; rw [e]
+          · rfl
+      rw [this]; exact h.fup k hk
+    · intro a _; rw [hsame.1, hsame.2]; ring
+  · have hf := flags_two h i j (upd (upd s.alpha i (svmR s i j).2.1) j (svmR s i j).2.2)
+      (fun k h1 h2 => by rw [upd_ne _ _ h2, upd_ne _ _ h1])
+    exact inv_step_two h hi hj hij hvi hvj hf.1 hf.2 (fun a ha => by
+      simp only [ha, if_true, State.q]
+      rw [h.sym (s.perm i) (s.perm a), h.sym (s.perm j) (s.perm a), h2, h3]; ring)
+
+/-! ### coefficients after `updateSMO` (for `sum_inv` and the objective) -/
+
+theorem uge_alpha (t : RS) (i : Nat) (old new : Rat) : (t.updateGradientEdge i old new).alpha = t.alpha := by
+  rw [uge_fields]
+
+theorem updateSMO_alpha (s : RS) (i j : Nat) :
+    (s.updateSMO i j).alpha = (if s.eqc then s.smoSvmBase i j else s.smoBoxBase i j).alpha := by
+  unfold State.updateSMO
+  dsimp only
+  split <;> simp only [uge_alpha]
+
+theorem smoSvmBase_alpha (s : RS) (i j : Nat) :
+    (s.smoSvmBase i j).alpha = upd (upd s.alpha i (svmR s i j).2.1) j (svmR s i j).2.2 := by
+  rw [smoSvmBase_eq]; split <;> rfl
+
+theorem smoBoxBase_alpha (s : RS) (i j : Nat) :
+    (s.smoBoxBase i j).alpha = if i = j then upd s.alpha i (boxV1 s i)
+      else upd (upd s.alpha i (boxV2 s i j).1) j (boxV2 s i j).2 := by
+  by_cases hij : i = j
+  · subst hij; rw [smoBoxBase_one, if_pos rfl]; rfl
+  · rw [smoBoxBase_two s hij, if_neg hij]; rfl
+
 end SharkVerif.Smo
